@@ -644,7 +644,10 @@ class SDateTime:
         r = self.__eq__(o)
         return (not r) if isinstance(r, bool) else mkbool(z3.Not(r.z))
 
-    __hash__ = None
+    def __hash__(self):
+        # a constant: dict/set semantics then rest on __eq__ alone (which forks when the values are symbolic) - what pytz's
+        # localize() needs for its two-candidate dict of an ambiguous wall-clock time
+        return 0x5D7
 
     def __bool__(self):
         return True
